@@ -318,6 +318,21 @@ type cConsumer struct {
 
 const stuckBound = 10 * time.Second
 
+// guarded runs f in its own goroutine and reports whether it returned within the bound
+func guarded(f func()) bool {
+	done := make(chan struct{})
+	go func() {
+		defer close(done)
+		f()
+	}()
+	select {
+	case <-done:
+		return true
+	case <-time.After(stuckBound):
+		return false
+	}
+}
+
 type cRunResult struct {
 	cfg        cCfg
 	events     []cEvent
@@ -453,11 +468,18 @@ func (r *condRun) exec(b cBatch) *cObs {
 			ob.Stuck = []int{}
 		}
 		if len(ob.Stuck) == 0 {
-			if n, ok := qu.Len(); ok {
-				ob.HasLen, ob.Len = true, n
-			}
-			if cl, ok := qu.IsClosed(); ok {
-				ob.HasClosed, ob.Closed = true, cl
+			// Len / IsClosed take the queue's mutex: a call that never comes back (a mutex left locked) must not take
+			// the driver with it - it is reported like a stuck call
+			if !guarded(func() {
+				if n, ok := qu.Len(); ok {
+					ob.HasLen, ob.Len = true, n
+				}
+				if cl, ok := qu.IsClosed(); ok {
+					ob.HasClosed, ob.Closed = true, cl
+				}
+			}) {
+				ob.HasLen, ob.HasClosed = false, false
+				ob.Stuck = append(ob.Stuck, 998)
 			}
 		}
 		res.obsList = append(res.obsList, ob)
@@ -494,10 +516,10 @@ func (r *condRun) exec(b cBatch) *cObs {
 func (r *condRun) finish() *cRunResult {
 	res := r.res
 	if !res.stuck {
-		func() {
+		guarded(func() {
 			defer func() { recover() }()
 			r.qu.Call(lClose, 0)
-		}()
+		})
 	}
 	if res.diverged {
 		res.events = r.fallback.list()
